@@ -18,8 +18,10 @@ Props/C19Planarise.lean) must tie exactly.
 Spec (SPECFAIL, reported before a tie difference because it is a concrete failing input):
   * always: every original node is present at its position (`planarise_preserves_nodes`);
   * if the segment list the LIBRARY hands to computeCrossings (one EdgeSegment per edge of its overlap-free graph)
-    satisfies `goodB` (= hypothesis `Good` of `crossings_sound` / `crossings_complete`, `goodB_sound`): the crossing
-    nodes are exactly the points (v.cc, h.cc) with  h.lo < v.cc ≤ h.hi, v.lo < h.cc < v.hi;
+    satisfies `goodB` (= hypothesis `Good` of the sweep theorems, `goodB_sound`): the crossing nodes are exactly the
+    points (v.cc, h.cc) with  h.lo < v.cc ≤ h.hi, v.lo < h.cc < v.hi  (`crossings_sound/_complete`), no two edges of the
+    planar graph cross (`planarise_no_crossing_partial`), every edge of the overlap-free graph is connected through
+    crossing nodes only (`planarise_preserves_nodes_and_connections_partial`);
   * if the input satisfies `separatedB` (orthogonal centre-to-centre routes, distinct coordinates more than 1 apart,
     no route through a third node's centre): no two edges of the result properly cross, and every original adjacency
     is realised by a chain of new nodes.
@@ -145,6 +147,19 @@ def checkPlanX (c : Case) : CaseResult := Id.run do
     | none => pure ()
     if implCross.length != want.length then
       return { verdict := .specfail s!"planarise: {implCross.length} crossing nodes for {want.length} crossing points", stats := stats }
+    -- planarise_no_crossing_partial / planarise_preserves_nodes_and_connections_partial under the same hypothesis:
+    -- no two edges of the planar graph cross, every edge of the overlap-free graph is still connected through
+    -- crossing nodes only
+    let posI (i : Nat) : Option Pt := (qn.find? (fun n => n.id == i)).map (·.p)
+    let qeRaw := (c.get "qe").toList.map (fun l => (nat! l[0]!, nat! l[1]!))
+    let segsI := qeRaw.filterMap (fun e => match posI e.1, posI e.2 with
+      | some a, some b => some (a, b) | _, _ => none)
+    match firstProperCross segsI with
+    | some (s, t) => return { verdict := .specfail s!"planarise: edges {showPt s.1}-{showPt s.2} and {showPt t.1}-{showPt t.2} cross (planarise_no_crossing_partial)", stats := stats }
+    | none => pure ()
+    match (c.get "oe").toList.find? (fun l => !chainB onIds qeRaw (nat! l[0]!) (nat! l[1]!)) with
+    | some l => return { verdict := .specfail s!"planarise: overlap-free edge {l[0]!}-{l[1]!} not connected through crossing nodes (planarise_preserves_nodes_and_connections_partial)", stats := stats }
+    | none => pure ()
   if sep then
     let pos (i : Nat) : Option Pt := (qnR.find? (fun n => n.id == i)).map (·.p)
     let segs := iE.filterMap (fun e => match pos e.1, pos e.2 with
